@@ -7,6 +7,8 @@ from ..util import *
 def strip(v):
     """Drop inst/site decoration of call values."""
     if isinstance(v, tuple) and v and v[0] == 'call':
+        if len(v) > 5 and v[5]:
+            return ('call', v[1], tuple(strip(a) for a in v[2]), '', None, v[5])     # keep the occurrence tag of repeated effectful calls
         return ('call', v[1], tuple(strip(a) for a in v[2]))
     if isinstance(v, tuple) and v and v[0] == 'try':
         return strip(v[1])
